@@ -34,6 +34,10 @@
 #include <GeographicLib/Gnomonic.hpp>
 #include <GeographicLib/CassiniSoldner.hpp>
 #include <GeographicLib/DST.hpp>
+#include <GeographicLib/GravityModel.hpp>
+#include <GeographicLib/GravityCircle.hpp>
+#include <GeographicLib/MagneticModel.hpp>
+#include <GeographicLib/MagneticCircle.hpp>
 #include <atomic>
 #include <fstream>
 #include <functional>
@@ -46,6 +50,27 @@ using namespace GeographicLib;
 using namespace std;
 typedef vector<double> V;
 
+// ---- synthetic model files (formats: doc sections magneticformat / gravityformat) ----
+static void put_i32(string& f, int v) { for (int i = 0; i < 4; ++i) f.push_back(char(((unsigned) v) >> (8 * i))); }
+static void put_f64(string& f, double v) { uint64_t u = vt::bits(v); for (int i = 0; i < 8; ++i) f.push_back(char(u >> (8 * i))); }
+static void put_set(string& f, int N, int M, vt::Rng& g, double scale) {
+  put_i32(f, N); put_i32(f, M); int cs = (M + 1) * (2 * N - M + 2) / 2, ss = cs - (N + 1);
+  for (int i = 0; i < cs; ++i) put_f64(f, i == 0 ? 0.0 : g.uni(-1, 1) * scale);
+  for (int i = 0; i < ss; ++i) put_f64(f, g.uni(-1, 1) * scale);
+}
+static void write_models(const string& dir) {
+  vt::Rng g(11);
+  { ofstream m((dir + "/tsm.wmm").c_str()); m << "WMMF-2\nName tsm\nDescription synthetic\nReleaseDate 2026-01-01\nRadius 6371200\nNumModels 2\nNumConstants 1\nEpoch 2000\nDeltaEpoch 5\n"
+      "MinTime 1990\nMaxTime 2030\nMinHeight -1000\nMaxHeight 600000\nNormalization schmidt\nType linear\nByteOrder little\nID THREADSM\n";
+    string c = "THREADSM"; put_set(c, 6, 6, g, 1000); put_set(c, 6, 6, g, 900); put_set(c, 4, 4, g, 10); put_set(c, 2, 2, g, 5);
+    ofstream f((dir + "/tsm.wmm.cof").c_str(), ios::binary); f.write(c.data(), streamsize(c.size())); }
+  { ofstream m((dir + "/tsg.egm").c_str()); m << "EGMF-1\nName tsg\nDescription synthetic\nReleaseDate 2026-01-01\nModelRadius 6378136.3\nModelMass 3986004.415e8\nAngularVelocity 7292115e-11\n"
+      "ReferenceRadius 6378137\nReferenceMass 3986004.418e8\nFlattening 0.0033528106647474805\nHeightOffset -0.41\nCorrectionMultiplier 0.01\n"
+      "Normalization full\nByteOrder little\nID THREADSG\n";
+    string c = "THREADSG"; put_set(c, 8, 8, g, 1e-6); put_set(c, 3, 3, g, 1e-2);
+    ofstream f((dir + "/tsg.egm.cof").c_str(), ios::binary); f.write(c.data(), streamsize(c.size())); }
+}
+
 // ---- shared objects (constructed in main, before any thread starts) ----
 struct Shared {
   Geodesic geod{6378137.0, 1 / 298.257223563}; GeodesicExact geodex{6378137.0, 1 / 298.257223563}; Geodesic geodx{6378137.0, 1 / 298.257223563, true};
@@ -57,6 +82,9 @@ struct Shared {
   vector<double> C, S; unique_ptr<SphericalHarmonic> sh; unique_ptr<CircularEngine> circ; unique_ptr<Geoid> geoid;
   AzimuthalEquidistant azeq{Geodesic::WGS84()}; Gnomonic gno{Geodesic::WGS84()}; CassiniSoldner cas{40.0, 10.0, Geodesic::WGS84()};
   DST dst{48};
+  PolarStereographic ps{6378137.0, 1 / 298.257223563, 0.994}; TransverseMercatorExact tmx{6378137.0, 1 / 298.257223563, 0.9996};
+  Ellipsoid ell{6378137.0, 1 / 298.257223563}; NormalGravity ng{6378137.0, 3.986004418e14, 7.292115e-5, 1 / 298.257223563, true};
+  unique_ptr<GravityModel> gm; unique_ptr<MagneticModel> mm; unique_ptr<GravityCircle> gc; unique_ptr<MagneticCircle> mc;
   Shared(const string& dir) : line(geod.Line(40.6, -73.8, 53.5)), lineex(geodex.Line(40.6, -73.8, 53.5)), rline(rhumb.Line(40.6, -73.8, 53.5)) {
     int N = 8; vt::Rng g(7); for (int i = 0; i < (N + 1) * (N + 2) / 2; ++i) C.push_back(g.uni(-1, 1)); for (int i = 0; i < N * (N + 1) / 2; ++i) S.push_back(g.uni(-1, 1));
     SphericalEngine::RootTable(N + 2);
@@ -65,6 +93,8 @@ struct Shared {
     { ofstream f((dir + "/tsgeoid.pgm").c_str(), ios::binary); f << "P5\n# Offset -108\n# Scale 0.25\n36 19\n65535\n";
       for (int i = 0; i < 36 * 19; ++i) { unsigned v = unsigned((i * 7919) % 5000); f.put(char(v >> 8)); f.put(char(v & 255)); } }
     geoid.reset(new Geoid("tsgeoid", dir, true, true));
+    write_models(dir); gm.reset(new GravityModel("tsg", dir)); mm.reset(new MagneticModel("tsm", dir));
+    gc.reset(new GravityCircle(gm->Circle(30.0, 1000.0, GravityModel::ALL))); mc.reset(new MagneticCircle(mm->Circle(2003.0, 30.0, 1000.0)));
   }
 };
 static Shared* G = nullptr;
@@ -117,6 +147,30 @@ static map<string, function<V(int)>> programs() {
   p["gnomonic_obj"] = [](int i) { double x, y, la, lo; G->gno.Forward(40.0, 10.0, 45.0 + i, 12.0, x, y); G->gno.Reverse(40.0, 10.0, x, y, la, lo); return V{x, y, la, lo}; };
   p["cassini_obj"] = [](int i) { double x, y, la, lo; G->cas.Forward(45.0 + i, 12.0, x, y); G->cas.Reverse(x, y, la, lo); return V{x, y, la, lo}; };
   p["dst_obj"] = [](int i) { vector<double> F(96); auto f = [i](double x) { return sin(x) + 0.1 * (i + 1) * sin(3 * x); }; G->dst.transform(f, F.data()); return V{F[0], F[1], F[2], G->dst.eval(0.3, cos(0.3), F.data(), 48)}; };
+  // ---- data-file models and their circles; const members that create line / circle objects from a shared solver ----
+  p["gravmodel_obj"] = [](int i) { const GravityModel& m = *G->gm; double gx, gy, gz, dx, dy, dz, Dg, xi, eta, wx, wy, wz, tx, ty, tz;
+    double W = m.Gravity(30.0 + i, 20.0 * i, 1000.0, gx, gy, gz), T = m.Disturbance(30.0 + i, 20.0 * i, 1000.0, dx, dy, dz); m.SphericalAnomaly(30.0 + i, 20.0 * i, 1000.0, Dg, xi, eta);
+    double w = m.W(4.0e6, 3.0e6 + 1.0e5 * i, 4.0e6, wx, wy, wz), t = m.T(4.0e6, 3.0e6 + 1.0e5 * i, 4.0e6, tx, ty, tz);
+    return V{W, gx, gy, gz, T, dx, dy, dz, Dg, xi, eta, w, wx, wy, wz, t, tx, ty, tz, m.GeoidHeight(30.0 + i, 20.0 * i), m.T(4.0e6, 3.0e6, 4.1e6 + i)}; };
+  p["gravcircle_obj"] = [](int i) { const GravityCircle& c = *G->gc; double gx, gy, gz, dx, dy, dz, Dg, xi, eta; double W = c.Gravity(25.0 * i, gx, gy, gz), T = c.Disturbance(25.0 * i, dx, dy, dz);
+    c.SphericalAnomaly(25.0 * i, Dg, xi, eta); return V{W, gx, gy, gz, T, dx, dy, dz, Dg, xi, eta, c.GeoidHeight(25.0 * i), c.T(25.0 * i), c.V(25.0 * i, gx, gy, gz)}; };
+  p["gravmodel_circle"] = [](int i) { GravityCircle c = G->gm->Circle(10.0 + i, 500.0 * i, GravityModel::ALL); double gx, gy, gz; double W = c.Gravity(33.0, gx, gy, gz); return V{W, gx, gy, gz, c.GeoidHeight(33.0)}; };
+  p["magmodel_obj"] = [](int i) { const MagneticModel& m = *G->mm; double bx, by, bz, bxt, byt, bzt, H, F, D, I; m(2001.0 + 3.0 * i, 30.0 + i, 20.0 * i, 1000.0, bx, by, bz, bxt, byt, bzt);
+    MagneticModel::FieldComponents(bx, by, bz, H, F, D, I); double cx, cy, cz; m.FieldGeocentric(2004.0 + i, 4.0e6, 3.0e6, 4.0e6, cx, cy, cz, bxt, byt, bzt); return V{bx, by, bz, bxt, byt, bzt, H, F, D, I, cx, cy, cz}; };
+  p["magcircle_obj"] = [](int i) { double bx, by, bz, bxt, byt, bzt; (*G->mc)(25.0 * i, bx, by, bz, bxt, byt, bzt); return V{bx, by, bz, bxt, byt, bzt}; };
+  p["magmodel_circle"] = [](int i) { MagneticCircle c = G->mm->Circle(2002.0 + 4.0 * i, 10.0 + i, 500.0 * i); double bx, by, bz; c(33.0, bx, by, bz); return V{bx, by, bz}; };
+  p["geod_line_make"] = [](int i) { GeodesicLine l = G->geod.Line(10.0 + i, 20.0, 30.0 + i, Geodesic::ALL), l2 = G->geod.InverseLine(10.0 + i, 20.0, -30.0, 100.0 + i, Geodesic::ALL);
+    double la, lo, az, m, M1, M2, S, la2, lo2; l.Position(1.0e6, la, lo, az, m, M1, M2, S); l2.Position(0.5 * l2.Distance(), la2, lo2); return V{la, lo, az, m, M1, M2, S, la2, lo2, l2.Distance()}; };
+  p["geodex_line_make"] = [](int i) { GeodesicLineExact l = G->geodex.Line(10.0 + i, 20.0, 30.0 + i, GeodesicExact::ALL), l2 = G->geodex.InverseLine(10.0 + i, 20.0, -30.0, 100.0 + i, GeodesicExact::ALL);
+    double la, lo, az, m, M1, M2, S, la2, lo2; l.Position(1.0e6, la, lo, az, m, M1, M2, S); l2.Position(0.5 * l2.Distance(), la2, lo2); return V{la, lo, az, m, M1, M2, S, la2, lo2, l2.Distance()}; };
+  p["rhumb_line_make"] = [](int i) { RhumbLine l = G->rhumb.Line(10.0 + i, 20.0, 30.0 + i), lx = G->rhumbx.Line(10.0 + i, 20.0, 30.0 + i); double la, lo, S, la2, lo2, S2; l.Position(1.0e6, la, lo, S); lx.Position(1.0e6, la2, lo2, S2);
+    return V{la, lo, S, la2, lo2, S2}; };
+  p["ps_obj"] = [](int i) { double x, y, g, k, la, lo; G->ps.Forward(i % 2 == 0, 80.0 - i, 30.0, x, y, g, k); G->ps.Reverse(i % 2 == 0, x, y, la, lo, g, k); return V{x, y, g, k, la, lo}; };
+  p["tmx_obj"] = [](int i) { double x, y, g, k, la, lo; G->tmx.Forward(3.0, 40.0 + i, 5.0, x, y, g, k); G->tmx.Reverse(3.0, x, y, la, lo, g, k); return V{x, y, g, k, la, lo}; };
+  p["ell_obj"] = [](int i) { const Ellipsoid& e = G->ell; return V{e.MeridianDistance(30.0 + i), e.Area(), e.RectifyingLatitude(40.0 + i), e.InverseRectifyingLatitude(40.0 + i), e.ConformalLatitude(20.0 + i),
+    e.InverseConformalLatitude(20.0 + i), e.AuthalicLatitude(50.0 - i), e.InverseAuthalicLatitude(50.0 - i), e.IsometricLatitude(60.0), e.InverseIsometricLatitude(60.0 + i), e.CircleRadius(33.0 + i), e.QuarterMeridian()}; };
+  p["normgrav_obj"] = [](int i) { const NormalGravity& n = G->ng; double gy, gz, gx, gy2, gz2; double u = n.U(7.0e6, 1.0e5 * i, 2.0e6, gx, gy2, gz2); double gg = n.Gravity(40.0 + i, 1000.0, gy, gz);
+    return V{u, gx, gy2, gz2, gg, gy, gz, n.SurfaceGravity(30.0 + i), n.DynamicalFormFactor(2), n.DynamicalFormFactor(4 + 2 * i)}; };
   return p;
 }
 
